@@ -23,3 +23,179 @@ def renderIso (sep : Char) (t : DT) : List Char :=
   pad2 t.hh.toNat ++ [':'] ++ pad2 t.mm.toNat ++ [':'] ++ pad2 t.ss.toNat
 
 end PT
+
+namespace PT
+
+/-- `'%06d' % n` for `n < 1000000` -/
+def pad6 (n : Nat) : List Char :=
+  [digitChar (n / 100000), digitChar (n / 10000), digitChar (n / 1000), digitChar (n / 100), digitChar (n / 10), digitChar n]
+
+/-- the offset / zone suffix of a rendering -/
+inductive Off where
+  | naive                                  -- nothing
+  | z (sp : Bool)                          -- `Z` / ` Z`
+  | utc                                    -- ` UTC`
+  | hh (sp neg : Bool) (h : Nat)           -- `±HH`
+  | hhmm (sp neg : Bool) (h m : Nat)       -- `±HHMM`
+  | hhcmm (sp neg : Bool) (h m : Nat)      -- `±HH:MM`
+  deriving Repr, DecidableEq
+
+def spc (sp : Bool) : List Char := if sp then [' '] else []
+def sgn (neg : Bool) : Char := if neg then '-' else '+'
+
+def Off.render : Off → List Char
+  | .naive => []
+  | .z sp => spc sp ++ ['Z']
+  | .utc => [' ', 'U', 'T', 'C']
+  | .hh sp neg h => spc sp ++ [sgn neg] ++ pad2 h
+  | .hhmm sp neg h m => spc sp ++ [sgn neg] ++ pad2 h ++ pad2 m
+  | .hhcmm sp neg h m => spc sp ++ [sgn neg] ++ pad2 h ++ [':'] ++ pad2 m
+
+/-- the offset in seconds the suffix means (`none` = no zone) -/
+def Off.seconds : Off → Option Int
+  | .naive => none
+  | .z _ => some 0
+  | .utc => some 0
+  | .hh _ neg h => some ((if neg then -1 else 1) * ((h : Int) * 3600))
+  | .hhmm _ neg h m => some ((if neg then -1 else 1) * ((h : Int) * 3600 + (m : Int) * 60))
+  | .hhcmm _ neg h m => some ((if neg then -1 else 1) * ((h : Int) * 3600 + (m : Int) * 60))
+
+/-- offsets between -23:59 and +23:59 -/
+def Off.Dom : Off → Prop
+  | .hh _ _ h => h ≤ 23
+  | .hhmm _ _ h m => h ≤ 23 ∧ m ≤ 59
+  | .hhcmm _ _ h m => h ≤ 23 ∧ m ≤ 59
+  | _ => True
+
+/-- the time-of-day part of the ISO-like renderings -/
+inductive TimeFmt where
+  | hms                                    -- HH:MM:SS
+  | frac (comma : Bool) (k : Nat)          -- HH:MM:SS.f… / HH:MM:SS,f… with k fraction digits
+  | hm                                     -- HH:MM
+  deriving Repr, DecidableEq
+
+def TimeFmt.render (f : TimeFmt) (t : DT) : List Char :=
+  match f with
+  | .hms => pad2 t.hh.toNat ++ [':'] ++ pad2 t.mm.toNat ++ [':'] ++ pad2 t.ss.toNat
+  | .frac comma k => pad2 t.hh.toNat ++ [':'] ++ pad2 t.mm.toNat ++ [':'] ++ pad2 t.ss.toNat ++
+      [if comma then ',' else '.'] ++ (pad6 t.us.toNat).take k
+  | .hm => pad2 t.hh.toNat ++ [':'] ++ pad2 t.mm.toNat
+
+/-- what parsing must return: the fields the format shows, microseconds cut to the digits shown; `HH:MM`
+    names neither seconds nor microseconds, which therefore come from the default (C15) -/
+def TimeFmt.expect (f : TimeFmt) (t dflt : DT) : DT :=
+  match f with
+  | .hms => { t with us := 0 }
+  | .frac _ k => { t with us := t.us / 10 ^ (6 - k) * 10 ^ (6 - k) }
+  | .hm => { t with ss := dflt.ss, us := dflt.us }
+
+def isoDate (t : DT) : List Char := pad4 t.y.toNat ++ ['-'] ++ pad2 t.m.toNat ++ ['-'] ++ pad2 t.d.toNat
+
+/-- `YYYY-MM-DD<sep><time><offset>` -/
+def renderIsoX (sep : Char) (f : TimeFmt) (t : DT) (off : Off) : List Char :=
+  isoDate t ++ [sep] ++ f.render t ++ off.render
+
+end PT
+
+namespace PT
+
+/-- the compact all-digit renderings -/
+inductive CompactFmt where
+  | tHMS       -- YYYYMMDDTHHMMSS
+  | nosepHMS   -- YYYYMMDDHHMMSS
+  | tHM        -- YYYYMMDDTHHMM
+  | date       -- YYYYMMDD
+  deriving Repr, DecidableEq
+
+def compactDate (t : DT) : List Char := pad4 t.y.toNat ++ pad2 t.m.toNat ++ pad2 t.d.toNat
+
+def renderCompact (f : CompactFmt) (t : DT) : List Char :=
+  match f with
+  | .tHMS => compactDate t ++ ['T'] ++ (pad2 t.hh.toNat ++ pad2 t.mm.toNat ++ pad2 t.ss.toNat)
+  | .nosepHMS => compactDate t ++ (pad2 t.hh.toNat ++ pad2 t.mm.toNat ++ pad2 t.ss.toNat)
+  | .tHM => compactDate t ++ ['T'] ++ (pad2 t.hh.toNat ++ pad2 t.mm.toNat)
+  | .date => compactDate t
+
+/-- what parsing must return; fields the text does not name come from the default
+    (`HHMMSS` after `T` names the microsecond as 0, the 14-digit form does not) -/
+def CompactFmt.expect (f : CompactFmt) (t dflt : DT) : DT :=
+  match f with
+  | .tHMS => { t with us := 0 }
+  | .nosepHMS => { t with us := dflt.us }
+  | .tHM => { t with ss := dflt.ss, us := dflt.us }
+  | .date => { t with hh := dflt.hh, mm := dflt.mm, ss := dflt.ss, us := dflt.us }
+
+end PT
+
+namespace PT
+
+def MON_ABBR : List (List Char) :=
+  ["Jan", "Feb", "Mar", "Apr", "May", "Jun", "Jul", "Aug", "Sep", "Oct", "Nov", "Dec"].map String.toList
+def MON_FULL : List (List Char) :=
+  ["January", "February", "March", "April", "May", "June", "July", "August", "September", "October", "November",
+   "December"].map String.toList
+def WD_ABBR : List (List Char) := ["Mon", "Tue", "Wed", "Thu", "Fri", "Sat", "Sun"].map String.toList
+
+/-- `MON[m - 1]`, `MONL[m - 1]`, `WD[w]` -/
+def monAbbr (m : Nat) : List Char := MON_ABBR.getD (m - 1) []
+def monFull (m : Nat) : List Char := MON_FULL.getD (m - 1) []
+def wdAbbr (w : Nat) : List Char := WD_ABBR.getD w []
+
+/-- `'%d' % n` for `n < 100` -/
+def dec12 (n : Nat) : List Char := if n < 10 then [digitChar n] else pad2 n
+/-- `'%2d' % n` for `n < 100` (space padded) -/
+def sp2 (n : Nat) : List Char := if n < 10 then [' ', digitChar n] else pad2 n
+
+def hmsColon (t : DT) : List Char := pad2 t.hh.toNat ++ [':'] ++ pad2 t.mm.toNat ++ [':'] ++ pad2 t.ss.toNat
+
+/-- month-name renderings (`w` = any weekday index 0..6: the parser ignores it when a day is given) -/
+inductive MonFmt where
+  | ctime (w : Nat)        -- Www Mmm dd HH:MM:SS YYYY      (day space-padded, as C's ctime)
+  | rfc2822 (w : Nat)      -- Www, DD Mmm YYYY HH:MM:SS<offset>
+  | longDate               -- Month D, YYYY
+  | dMonY                  -- D Mon YYYY
+  | ddMonY                 -- DD-Mon-YYYY
+  deriving Repr, DecidableEq
+
+def renderMon (f : MonFmt) (t : DT) (off : Off) : List Char :=
+  match f with
+  | .ctime w => wdAbbr w ++ [' '] ++ monAbbr t.m.toNat ++ [' '] ++ sp2 t.d.toNat ++ [' '] ++ hmsColon t ++ [' '] ++ pad4 t.y.toNat
+  | .rfc2822 w => wdAbbr w ++ [',', ' '] ++ pad2 t.d.toNat ++ [' '] ++ monAbbr t.m.toNat ++ [' '] ++ pad4 t.y.toNat ++ [' '] ++
+      hmsColon t ++ off.render
+  | .longDate => monFull t.m.toNat ++ [' '] ++ dec12 t.d.toNat ++ [',', ' '] ++ pad4 t.y.toNat
+  | .dMonY => dec12 t.d.toNat ++ [' '] ++ monAbbr t.m.toNat ++ [' '] ++ pad4 t.y.toNat
+  | .ddMonY => pad2 t.d.toNat ++ ['-'] ++ monAbbr t.m.toNat ++ ['-'] ++ pad4 t.y.toNat
+
+/-- which fields the text names -/
+def MonFmt.expect (f : MonFmt) (t dflt : DT) : DT :=
+  match f with
+  | .ctime _ => { t with us := 0 }
+  | .rfc2822 _ => { t with us := 0 }
+  | _ => { t with hh := dflt.hh, mm := dflt.mm, ss := dflt.ss, us := dflt.us }
+
+/-- D-C02 excludes years below 100 wherever the year reaches `_ymd.append` as a Decimal -/
+def MonFmt.Dom (f : MonFmt) (t : DT) : Prop :=
+  match f with
+  | .ctime w => w < 7 ∧ 100 ≤ t.y
+  | .rfc2822 w => w < 7 ∧ 100 ≤ t.y
+  | .longDate => 100 ≤ t.y
+  | .dMonY => 100 ≤ t.y
+  | .ddMonY => True
+
+end PT
+
+namespace PT
+
+/-- 12-hour clock: `12` for hours 0 and 12 -/
+def h12 (h : Nat) : Nat := if h % 12 = 0 then 12 else h % 12
+def apWord (h : Nat) : List Char := if h < 12 then ['A', 'M'] else ['P', 'M']
+
+/-- `YYYY-MM-DD H:MM AM|PM` -/
+def renderAmpm (t : DT) : List Char :=
+  isoDate t ++ [' '] ++ dec12 (h12 t.hh.toNat) ++ [':'] ++ pad2 t.mm.toNat ++ [' '] ++ apWord t.hh.toNat
+
+/-- `YYYY-MM-DD HHhMMmSSs` -/
+def renderHmsLetters (t : DT) : List Char :=
+  isoDate t ++ [' '] ++ pad2 t.hh.toNat ++ ['h'] ++ pad2 t.mm.toNat ++ ['m'] ++ pad2 t.ss.toNat ++ ['s']
+
+end PT
